@@ -12,7 +12,10 @@ import types
 from contextlib import contextmanager
 
 from . import fp as fpm
+from . import locks
 from . import mon
+
+locks.install()
 
 PREFIX = 'vx'                 # every grammar name used by the simulator starts with this
 REF_BUDGET = 150_000          # steps a reference operation may take before it is 'nontermination'
@@ -264,7 +267,8 @@ class Env:
 def compile_desc(desc, watch=True, include_source=False):
     """The real thing: sourcer.Grammar on a description; arms the user-code seam."""
     from sourcer import Grammar
-    m = Grammar(desc, include_source=True) if include_source else Grammar(desc)
+    with locks.sut():
+        m = Grammar(desc, include_source=True) if include_source else Grammar(desc)
     if watch:
         mon.watch(generated_codes(m))
     arm(m)
@@ -300,7 +304,8 @@ def fresh_builtin(which):
         _META_CODE[0] = code
     m = types.ModuleType('sourcer.parser')
     m.__file__ = P.__file__
-    exec(_META_CODE[0], m.__dict__)
+    with locks.sut():
+        exec(_META_CODE[0], m.__dict__)
     return m
 
 
@@ -369,10 +374,13 @@ def entry_fn(module, entry):
 
 def _outcome_of_call(fn, text, pos, full):
     try:
-        v = fn(text, pos, full) if pos is not None else fn(text)
+        with locks.sut():
+            v = fn(text, pos, full) if pos is not None else fn(text)
         return fpm.outcome_fp('value', v), v
     except mon.StepBudget:
         return {'err': 'nontermination'}, None
+    except locks.Deadlock:
+        return {'err': 'deadlock'}, None
     except UserAbort as e:
         return {'abort': [e.tag, e.pos]}, None
     except UserAbortBase as e:
@@ -451,7 +459,8 @@ def run_op(env, ctx, op, path=()):
         n = 0
         if raw is not None and mod is not None:
             try:
-                n = postprocess(mod, raw)
+                with locks.sut():
+                    n = postprocess(mod, raw)
             except mon.StepBudget:
                 raise
             except Exception:
@@ -497,6 +506,8 @@ def _run_compile(env, ctx, op, path):
         out = {'compiled': sorted(n for n in vars(m) if not n.startswith('_'))}
     except mon.StepBudget:
         m, out = None, {'err': 'nontermination'}
+    except locks.Deadlock:
+        m, out = None, {'err': 'deadlock'}
     except (UserAbort, UserAbortBase) as e:
         m, out = None, {'abort': [e.tag, e.pos]}
         env.count('ctor_fail')
@@ -767,7 +778,8 @@ def build_chain_fast(chain, fresh=False):
     mods = []
     for name, code, doc in codes:
         m = types.ModuleType(name or 'grammar', doc=doc)
-        exec(code, m.__dict__)
+        with locks.sut():
+            exec(code, m.__dict__)
         if name:
             install_plain(name, m)
         arm(m)
@@ -784,7 +796,8 @@ def exec_module(chain):
         raise RuntimeError('chain does not compile: %s %s' % (codes[1], codes[2]))
     name, code, doc = codes[-1]
     m = types.ModuleType(name or 'grammar', doc=doc)
-    exec(code, m.__dict__)
+    with locks.sut():
+        exec(code, m.__dict__)
     if name:
         import sourcer.grammar as sg
         sg._install_module(name, m)
